@@ -12,11 +12,16 @@ NAMES = [
 class C04Spec(explore.Spec):
     prop = PROP
 
+    def alphabet_extra(self, cfg):
+        return [("tick",)] if cfg.get("persistence") else []
+
     def configs(self, tier):
         out = []
         for v in ("1.4", "1.5", "2.0", "2.1", "2.2"):
             for cb in ("record", "raise"):
                 out.append({"version": v, "cb": cb})
+        # one configuration with persistence: a callback that raises must not keep the state from being marked unsaved
+        out.append({"version": "2.2", "cb": "raise", "persistence": "json", "depth": 3})
         if tier == "thorough":
             out += [{"version": "2.2", "cb": "record", "flavour": "async"}, {"version": "1.4", "cb": "raise", "flavour": "async"}]
         return out
@@ -27,10 +32,21 @@ class C04Spec(explore.Spec):
         for ev in alpha.events(v, NAMES) + [alpha.rx(alpha.invalid_for(v)), ("set", 1, 0, 2, "0"), alpha.rx("1;255;0;0;6;abc"), alpha.rx("1;255;3;0;0;100"), ("fw", 1, 1, 1, "F1"), alpha.rx(f"253;255;0;0;17;{v}"), alpha.rx(f"0;255;0;0;18;{v}"), alpha.rx(alpha.lines(v)["FCA"]), alpha.rx(alpha.lines(v)["FRA0"])]:
             if ev not in evs:
                 evs.append(ev)
-        return evs
+        return evs + self.alphabet_extra(cfg)
+
+    def roots(self, cfg):
+        t = alpha.lines(cfg["version"])
+        roots = [()]
+        if "WA" in t and not cfg.get("persistence"):
+            # a sleeping node with one child and one reported value
+            roots.append(tuple(alpha.rx(t[n]) for n in ("PA", "CA0", "SA0", "WA")))
+        return roots
 
     def new_monitor(self, cfg):
-        return GatewayMonitor(PROP, cfg["version"], {"tree", "callbacks", "exc", "ids"})
+        clauses = {"tree", "callbacks", "exc", "ids"}
+        if cfg.get("persistence"):
+            clauses.add("dirty")
+        return GatewayMonitor(PROP, cfg["version"], clauses)
 
 
 RULE = (
@@ -49,8 +65,8 @@ ASSUMPTIONS = [
 def run(tier):
     spec = C04Spec()
     if tier == "quick":
-        return e1check.run_e1(spec, tier, depth=5, state_budget=400000, time_budget=150, rule=RULE, assumptions=ASSUMPTIONS)
-    return e1check.run_e1(spec, tier, depth=6, state_budget=1500000, time_budget=1500, rule=RULE, assumptions=ASSUMPTIONS)
+        return e1check.run_e1(spec, tier, depth=4, state_budget=600000, time_budget=150, rule=RULE, assumptions=ASSUMPTIONS)
+    return e1check.run_e1(spec, tier, depth=5, state_budget=3000000, time_budget=2400, rule=RULE, assumptions=ASSUMPTIONS)
 
 
 def replay(data):
